@@ -358,8 +358,9 @@ pub fn run_once(program: &str, path: &str, preempt: HashMap<usize, usize>, rando
                                 }
                             }
                         }
-                        writers_in.fetch_sub(1, Ordering::SeqCst);
+                        // (the window in which another write transaction must not be open includes the commit)
                         let res = tx.commit();
+                        writers_in.fetch_sub(1, Ordering::SeqCst);
                         let n = commits_done.fetch_add(1, Ordering::SeqCst) + 1;
                         out.lock().unwrap().push(format!("wcommit {} {} {} {}", t, i, n, if res.is_ok() { "ok".to_string() } else { err_class(&res.unwrap_err()) }));
                         upoint("user.tx_closed_w", i as u64);
